@@ -54,7 +54,8 @@ def run(tier, seed, only):
         core = mir.MirFile(dump.dump("scylla-cql-core"))
         mf = mir.MirFile(dump.dump("scylla-cql"), others=[core])
         reg = rustenum.Registry(["/repo/scylla-cql-core/src/frame/types.rs", "/repo/scylla-cql/src/frame/request/mod.rs",
-                                 "/repo/scylla-cql-core/src/frame/mod.rs"])
+                                 "/repo/scylla-cql-core/src/frame/mod.rs", "/repo/scylla-cql-core/src/frame/request/batch.rs",
+                                 "/repo/scylla-cql/src/frame/server_event_type.rs"])
     except Exception as e:
         return [{"name": "smt:c09_mir_dump", "engine": "smt:mir2smt", "status": "inconclusive", "reason": str(e)[:500]}]
     steps = [("query_parameters", lambda: query_parameters(ctx, mf, reg, tier)),
@@ -66,6 +67,8 @@ def run(tier, seed, only):
         except mir.Unsupported as e:
             ctx.add(name=f"smt:c09_translate_{name}", engine="smt:mir2smt", status="inconclusive",
                     reason="translator rejected the current source: " + str(e), functions="scylla-cql/src/frame/")
+    from . import smt_c09req
+    smt_c09req.run(ctx, mf, reg, tier)
     return ctx.results
 
 
